@@ -135,6 +135,9 @@ def random_argv(rng, complog):
     return argv
 
 
+LAST_REWRITTEN = []
+
+
 def record_registration(argv, profile_path, tmp):
     """the real register_processing_functions on a recording EventProcessor.
     returns list of (name, lineno, accepted)"""
@@ -151,6 +154,13 @@ def record_registration(argv, profile_path, tmp):
             full += ["-P", profile_path]
         ace = Acelyzer(full)
         aiulog.loglevel = -1
+        # what the command line itself says (the argument parser alone) against what registration is handed:
+        # an on/off switch given on the command line must reach register_processing_functions as given
+        import contextlib as _cl
+        import io as _io
+        with _cl.redirect_stdout(_io.StringIO()):
+            raw = vars(ace.parse_inputs(full))
+        LAST_REWRITTEN[:] = sorted(k for k, v in raw.items() if isinstance(v, bool) and vars(ace.args).get(k) != v)
     finally:
         sys.argv = saved
     rec = []
@@ -301,6 +311,9 @@ def e2e_case(ctx, case, sites, tmp, verbose=False):
     if verbose:
         print(rec)
     v = e2e_oracle(case, rec, reg_names, sites, flags)
+    if v is None and LAST_REWRITTEN:
+        v = ("request-rewritten", f"the switches {LAST_REWRITTEN} reach register_processing_functions with another value than the "
+                                  f"command line {case['argv']} gives them: the stages they select are never requested")
     if v:
         ctx.violation(v[0], v[1], case)
     return rec, flags
